@@ -747,7 +747,7 @@ func (e *ctrlEng) Trace(t *testing.T, sc Case) (Case, []string) {
 				// run until nothing moves: permit every waiting op, let timers (backoff, requeue) fire
 				idle, sleep := 0, time.Second
 
-				for round := 0; round < 400 && idle < 4; round++ {
+				for round := 0; round < 400 && idle < 8; round++ {
 					if permit() {
 						idle, sleep = 0, time.Second
 
@@ -763,7 +763,7 @@ func (e *ctrlEng) Trace(t *testing.T, sc Case) (Case, []string) {
 					idle++
 				}
 
-				log.add(fmt.Sprintf("quiesce t=%d settled=%v", tick(time.Now()), idle >= 4), "spec=ok")
+				log.add(fmt.Sprintf("quiesce t=%d settled=%v", tick(time.Now()), idle >= 8), "spec=ok")
 			}
 		}
 
